@@ -2,8 +2,34 @@
 
 package fs
 
+import "sort"
+
 // VerifToRegexString exposes toRegexString (the glob pattern -> regular expression rewriting) to the
 // C21 correspondence harness in /verif. Add-only; compiled only with the `verif` build tag.
 func VerifToRegexString(pattern string) string {
 	return toRegexString(pattern)
+}
+
+// VerifC21Walked is one entry of a Globber's walkedDirs cache.
+type VerifC21Walked struct {
+	Root        string   `json:"root"`
+	FileNames   []string `json:"files"`
+	Symlinks    []string `json:"symlinks"`
+	SubPackages []string `json:"subpackages"`
+}
+
+// VerifC21Cache returns a copy of the Globber's walkedDirs cache (its only mutable state), sorted by root path.
+// Read-only.
+func VerifC21Cache(g *Globber) []VerifC21Walked {
+	out := make([]VerifC21Walked, 0, len(g.walkedDirs))
+	for root, w := range g.walkedDirs {
+		out = append(out, VerifC21Walked{
+			Root:        root,
+			FileNames:   append([]string{}, w.fileNames...),
+			Symlinks:    append([]string{}, w.symlinks...),
+			SubPackages: append([]string{}, w.subPackages...),
+		})
+	}
+	sort.Slice(out, func(i, j int) bool { return out[i].Root < out[j].Root })
+	return out
 }
